@@ -492,6 +492,118 @@ Proof.
   rewrite ?rf_init_sec by nia. destruct (rs x), (rs y); reflexivity.
 Qed.
 
+(* ---------------------------------------------------------------- normalize, next_* , pow *)
+Definition inj_rf0 (x : rf) : val := inj_rf x nf.
+
+Lemma normalize_br x p n f : 0 <= rc x ->
+  py_RealFloat_normalize (inj_rf x f) (inj_opt p) (inj_opt n) = inj_res inj_rf0 (normalize x p n).
+Proof.
+  intros Hx. unfold py_RealFloat_normalize, normalize, inj_rf0.
+  destruct p as [p|], n as [n|]; go; cbn [inj_res]; try reflexivity.
+  all: repeat (first [step | rewrite Z.abs_eq by lia]).
+  all: try solve [done_rf].
+  all: try (cbn [inj_res]; rewrite ?rf_init_sec; try reflexivity; try (apply Z.shiftl_nonneg; lia); try (apply Z.shiftr_nonneg; lia); try lia).
+Qed.
+
+Lemma normalize_wf x p n y : 0 <= rc x -> normalize x p n = Ok y -> 0 <= rc y.
+Proof.
+  intros Hx. unfold normalize.
+  assert (G : forall shift exp,
+    (if shift =? 0 then Ok (RF (rs x) exp (rc x))
+     else if shift >? 0 then Ok (RF (rs x) exp (Z.shiftl (rc x) shift))
+     else if negb (Z.land (rc x) (bitmask (- shift)) =? 0) then Err ValueErr
+     else Ok (RF (rs x) exp (Z.shiftr (rc x) (- shift)))) = Ok y -> 0 <= rc y).
+  { intros shift exp. destruct (shift =? 0). { intros E; injection E as <-; cbn [rc]; lia. }
+    destruct (shift >? 0). { intros E; injection E as <-; cbn [rc]; apply Z.shiftl_nonneg; lia. }
+    destruct (negb _); [discriminate|]. intros E; injection E as <-; cbn [rc]; apply Z.shiftr_nonneg; lia. }
+  destruct p as [p|], n as [n|].
+  - destruct (p <? 0); [discriminate|]. destruct (rexp x - (p - rf_p x) <=? n); apply G.
+  - destruct (p <? 0); [discriminate|]. apply G.
+  - apply G.
+  - intros E; injection E as <-; cbn [rc]; lia.
+Qed.
+
+Lemma normalize_br_ss x p n f : 0 <= rc x ->
+  py_RealFloat_normalize (inj_rf x f) (VInt p) (VInt n) = inj_res inj_rf0 (normalize x (Some p) (Some n)).
+Proof. intros. apply (normalize_br x (Some p) (Some n)); assumption. Qed.
+Lemma normalize_br_ns x n f : 0 <= rc x ->
+  py_RealFloat_normalize (inj_rf x f) VNone (VInt n) = inj_res inj_rf0 (normalize x None (Some n)).
+Proof. intros. apply (normalize_br x None (Some n)); assumption. Qed.
+
+Lemma extract_br x n p f : 0 <= rc x ->
+  py_RealFloat__extract_and_normalize (inj_rf x f) (VInt n) (inj_opt p) =
+  inj_res (fun ce => VTup [VInt (fst ce); VInt (snd ce)]) (extract_and_normalize x n p).
+Proof.
+  intros Hx. unfold py_RealFloat__extract_and_normalize, extract_and_normalize.
+  destruct p as [p|]; go.
+  - destruct (rexp x =? n + 1) eqn:E1; go.
+    + destruct (rf_p x >? p) eqn:E2; go; [|reflexivity].
+      rewrite normalize_br_ss by assumption.
+      destruct (normalize x (Some p) (Some n)) as [y|e]; cbn [inj_res bind]; unfold inj_rf0; go; reflexivity.
+    + rewrite normalize_br_ss by assumption.
+      destruct (normalize x (Some p) (Some n)) as [y|e]; cbn [inj_res bind]; unfold inj_rf0; go; reflexivity.
+  - destruct (rexp x =? n + 1) eqn:E1; go; [reflexivity|].
+    rewrite normalize_br_ns by assumption.
+    destruct (normalize x None (Some n)) as [y|e]; cbn [inj_res bind]; unfold inj_rf0; go; reflexivity.
+Qed.
+
+Lemma extract_wf x n p c e : 0 <= rc x -> extract_and_normalize x n p = Ok (c, e) -> 0 <= c.
+Proof.
+  intros Hx. unfold extract_and_normalize.
+  destruct (negb (rexp x =? n + 1) || match p with Some p0 => rf_p x >? p0 | None => false end).
+  - pose proof (normalize_wf x p (Some n)) as W.
+    destruct (normalize x p (Some n)) as [y|er]; cbn [bind]; [|discriminate].
+    intros E; injection E as <- _. apply (W y Hx eq_refl).
+  - intros E; injection E as <- _. exact Hx.
+Qed.
+
+Lemma next_away_br x n p f : 0 <= rc x ->
+  py_RealFloat__next_away (inj_rf x f) (VInt n) (inj_opt p) = inj_res inj_rf0 (next_away x n p).
+Proof.
+  intros Hx. unfold py_RealFloat__next_away, next_away.
+  rewrite extract_br by assumption.
+  pose proof (extract_wf x n p) as W.
+  destruct (extract_and_normalize x n p) as [[c e]|er]; cbn [inj_res bind fst snd]; [|reflexivity].
+  specialize (W c e Hx eq_refl). unfold inj_rf0.
+  destruct p as [p|]; go.
+  - rewrite Z.abs_eq by lia. destruct (bitlen (c + 1) >? p) eqn:E; go.
+    + change (1 <? 0) with false. go.
+      rewrite ?rf_init_sec by (apply Z.shiftr_nonneg; lia). reflexivity.
+    + reflexivity.
+  - reflexivity.
+Qed.
+
+Lemma rf_init_neg : forall s e c, c < 0 ->
+  py_RealFloat___init__ (VBool s) (VInt e) (VInt c) VNone VNone VNone VNone VNone VNone VNone VNone VNone VNone
+  = Err ValueErr.
+Proof.
+  intros s e c H. unfold py_RealFloat___init__; rtx.
+  destruct (c <? 0) eqn:E; [reflexivity|lia].
+Qed.
+
+Lemma next_towards_br x n p f : 0 <= rc x ->
+  py_RealFloat__next_towards (inj_rf x f) (VInt n) (inj_opt p) = inj_res inj_rf0 (next_towards x n p).
+Proof.
+  intros Hx. unfold py_RealFloat__next_towards, next_towards.
+  rewrite extract_br by assumption.
+  pose proof (extract_wf x n p) as W.
+  destruct (extract_and_normalize x n p) as [[c e]|er]; cbn [inj_res bind fst snd]; [|reflexivity].
+  specialize (W c e Hx eq_refl). unfold inj_rf0.
+  destruct p as [p|]; go.
+  - destruct (e >? n + 1) eqn:E1; go.
+    + destruct (c - 1 <? 0) eqn:E0.
+      * (* c = 0: Python builds RealFloat(c=-1), which raises ValueError *)
+        assert (c = 0) by lia. subst c. go.
+        destruct (bitlen (Z.abs (0 - 1)) <? p) eqn:E2; go; change (1 <? 0) with false; go.
+        -- replace (Z.lor (Z.shiftl (0 - 1) 1) 1) with (-1) by reflexivity. rewrite rf_init_neg by lia. reflexivity.
+        -- rewrite rf_init_neg by lia. reflexivity.
+      * rewrite Z.abs_eq by lia. destruct (bitlen (c - 1) <? p) eqn:E2; go; change (1 <? 0) with false; go.
+        -- rewrite rf_init_sec; [reflexivity|]. apply Z.lor_nonneg. split; [apply Z.shiftl_nonneg|]; lia.
+        -- reflexivity.
+    + destruct (c - 1 <? 0) eqn:E0; go; [rewrite rf_init_neg by lia|]; reflexivity.
+  - destruct (c - 1 <? 0) eqn:E0; go; [rewrite rf_init_neg by lia|]; reflexivity.
+Qed.
+
 (* ---------------------------------------------------------------- audit *)
 Print Assumptions round_br.
 Print Assumptions round_at_pub_br.
@@ -500,3 +612,6 @@ Print Assumptions split_br.
 Print Assumptions compare_br.
 Print Assumptions add_br.
 Print Assumptions mul_br.
+Print Assumptions normalize_br.
+Print Assumptions next_away_br.
+Print Assumptions next_towards_br.
